@@ -58,6 +58,11 @@ def scenarios(tier):
         # the same races with sizes that are not multiples of 8 (padding in front of nodes and typed values)
         sc.append(("pop_vs_insert_odd_" + kind, c, [AB(61), FILL(1), AB(77), FILL(2), AB(61), FILL(3), DROP(1)],
                    [[AB(13), FILL(T0), VER(T0), AT(4, 4), FILL(T0 + 1)], [DROP(2), AA(8, 8, 3), FILL(T1)]], {"live": True}))
+        # two threads take two NEIGHBOURING segments of a three-segment list at the same time (each one's predecessor /
+        # successor is changed by the other while it is between its reads and its CASes)
+        sc.append(("neighbours_" + kind, c, [AB(24), FILL(1), AB(8), FILL(2), AB(40), FILL(3), AB(8), FILL(4), AB(56), FILL(5), AB(8), FILL(6),
+                                             AB(55), FILL(7), DROP(1), DROP(3), DROP(5)],
+                   [[AB(20), FILL(T0), VER(T0), DROP(T0)], [AB(30), FILL(T1), VER(T1)]], {"live": True}))
         # discard_freelist against a release that becomes the new head between the discarder's mark and its unlink
         sc.append(("discard_vs_insert_" + kind, c, SETUP_TWOSEG,
                    [[{"k": "discard"}], [DROP(2), AB(8), FILL(T1), VER(T1)]], {"live": True}))
@@ -97,6 +102,8 @@ def scenarios(tier):
         sc.append(("fresh_residue_" + kind, c, SETUP_FRESH,
                    [[AT(8, 8), FILL(T0), VER(T0), AA(4, 4, 3), FILL(T0 + 1)], [AB(12), FILL(T1), DROP(T1), AB(5), FILL(T1 + 1), VER(T1 + 1)]],
                    {"live": True, "expect_live": True}))
+        sc.append(("fresh_last_bytes_" + kind, c, [AB(127), FILL(1)],
+                   [[AB(64), FILL(T0), VER(T0)], [AB(64), FILL(T1), VER(T1)]], {"live": True, "expect_live": True}))
     if tier == "thorough":
         for kind in kinds:
             c = es.conc_cfg(cap=200, kind=kind, minseg=8, retries=2)
